@@ -49,7 +49,7 @@ def cases_(draw):
     drop = gen.rare(draw, 150)
     # the first of the two target directories already holds an older dump of the same package whose files have the
     # same sizes but other contents (the rows in reverse order)
-    return {'pkg': pkg, 'opts': opts, 'stale_counters': stale, 'drop_invalid': drop, 'over_existing': gen.rare(draw, 200)}
+    return {'pkg': pkg, 'opts': opts, 'stale_counters': stale, 'drop_invalid': drop, 'over_existing': gen.rare(draw, 200) or (opts['add_filehash_to_path'] and gen.rare(draw, 300))}
 
 
 def cases(tier):
